@@ -21,6 +21,13 @@ FastEqualsTextbook(af) == LET atk == AtkMap(af) IN \A S \in SUBSET af.args :
     /\ AdmissibleFast(af, atk, S) = Admissible(af, S) /\ CompleteFast(af, atk, S) = CompleteSet(af, S)
     /\ StableFast(af, S) = StableSet(af, S)
 
+(* frameworks padded with sinks (arguments that attack nothing, inside the components): the complete / stable extensions are those  *)
+(* of the core, extended deterministically (a sink is in iff it is defended / unattacked by the set); LiftTheorem is checked by MCDung *)
+LiftCO(af, core, S) == S \cup {k \in af.args \ core : AttackersOf(af, k) \subseteq AttackedBy(af, S)}
+LiftST(af, core, S) == S \cup {k \in af.args \ core : AttackersOf(af, k) \cap S = {}}
+LiftedFam(af, core, sem) == LET c == RestrictAF(af, core) IN
+  IF sem = "ST" THEN {LiftST(af, core, S) : S \in ST(c)} ELSE {LiftCO(af, core, S) : S \in CO(c)}
+
 (* expected statuses of the transformed run, given those of the base run *)
 Expected(rel, sem, kind, base) ==
   IF rel = "union_nost" /\ sem = "ST"
